@@ -769,11 +769,14 @@ def rstep (c : Chunk) (s : RSt) : ROp → RSt
                                 Ev.mk (.dictPage c.rg c.col) ⟨.dictPage, [c.rg, c.col, 0]⟩] }
     else s
   | .seekNoIndex =>
-    { s with pos := .data 0, index := if c.hasDict then 1 else 0, ord := 0, dictPending := false }
+    -- file.go:1633-1650: data pages are numbered from 0 (as the offset index numbers them)
+    { s with pos := .data 0, index := 0, ord := 0, dictPending := false, serve := false }
   | .seekIndexed target =>
-    if s.last = some target then { s with serve := true }     -- 1590-1594: nothing else is touched
-    else if s.index = target then s                            -- 1596-1599
-    else { s with index := target, ord := target, dictPending := false, pos := .data target }  -- 1601-1629
+    -- file.go:1672-1684: a pending request for the cached page is superseded; the cached page is
+    -- served only when the stream stands right behind it
+    if s.last = some target ∧ s.index = target + 1 then { s with serve := true }
+    else if s.index = target then { s with serve := false }    -- 1686-1689: already positioned
+    else { s with index := target, ord := target, dictPending := false, pos := .data target, serve := false }  -- 1691-1720
 
 def rrun (c : Chunk) (ops : List ROp) : RSt := ops.foldl (rstep c) (rinit c)
 
@@ -837,7 +840,7 @@ theorem rinv_step (c : Chunk) {s : RSt} (h : RInv s) (o : ROp) : RInv (rstep c s
     split
     · exact ⟨h.sync, h.log⟩
     · split
-      · exact h
+      · exact ⟨h.sync, h.log⟩
       · exact ⟨by simp, h.log⟩
 
 theorem rinv_run (c : Chunk) (ops : List ROp) : RInv (rrun c ops) := by
